@@ -4,6 +4,7 @@ import (
 	"bytes"
 	"encoding/json"
 	"fmt"
+	"regexp"
 	"strings"
 
 	"github.com/google/go-tdx-guest/verify"
@@ -204,10 +205,19 @@ func runC04(r *mc.Run) {
 		return ti, fmt.Sprintf("q%d/svn1=%#x", qi, q.tee[1])
 	}
 
+	var rawEdit func([]byte) []byte // when set: edits the JSON text before signing; only "accepted => algorithm accepts" is judged
 	eval := func(id string, qi int, ti world.TcbInfo, nontrivial bool) {
 		q := quotes[qi]
 		w := q.w
 		raw := world.MustJSON(ti)
+		soundOnly := rawEdit != nil
+		if rawEdit != nil {
+			raw = rawEdit(raw)
+			if !json.Valid(raw) {
+				r.HarnessError("C04 %s: edited TCB Info is not valid JSON", id)
+				return
+			}
+		}
 		g := w.Getter.Clone()
 		g.Responses[world.URLTcbInfo(hexs(w.Plat.FMSPC))] = world.Response{Header: w.TcbHdr, Body: world.SignedBody("tcbInfo", raw, w.PKI.TcbKey)}
 		now := w.Now
@@ -230,7 +240,7 @@ func runC04(r *mc.Run) {
 		case err == nil && !want:
 			r.Violate("accepted:"+whyClass(why)+fmt.Sprintf(":svn1nonzero=%v", q.tee[1] != 0), id, "quote accepted although Intel's TCB algorithm rejects it: "+why, detail)
 			out = "accept!"
-		case err != nil && want:
+		case err != nil && want && !soundOnly:
 			r.Violate("rejected-uptodate"+fmt.Sprintf(":svn1nonzero=%v", q.tee[1] != 0), id, "quote rejected although every stated condition holds: "+errStr(err), detail)
 			out = "reject!"
 		}
@@ -245,7 +255,7 @@ func runC04(r *mc.Run) {
 		case world.IsPanic(rerr):
 			r.Violate("report:panic:"+crashSite(rerr), id, "SupportedTcbLevelsFromCollateral crashes: "+errStr(rerr), detail)
 			rep = "report-panic"
-		case !matched && rerr == nil:
+		case !matched && rerr == nil && !soundOnly:
 			r.Violate("report:nil-error-without-match", id, "no TCB level matches but SupportedTcbLevelsFromCollateral returns no error (an empty level)", detail)
 			rep = "report-empty!"
 		case rerr != nil:
@@ -254,6 +264,57 @@ func runC04(r *mc.Run) {
 		r.Eval(id, nontrivial, fmt.Sprintf("want=%v/%s/%s", want, out, rep))
 	}
 
+	// members absent from / null / empty in the signed JSON: a zero value must not be read as a match or as UpToDate
+	{
+		drop := func(name string, nth int, repl string) func([]byte) []byte {
+			return func(m []byte) []byte {
+				re := regexp.MustCompile(`"` + name + `":("[^"]*"|[0-9]+),?`)
+				k := 0
+				out := re.ReplaceAllFunc(m, func(b []byte) []byte {
+					k++
+					if k-1 != nth {
+						return b
+					}
+					if repl == "" {
+						return nil
+					}
+					tail := ""
+					if b[len(b)-1] == ',' {
+						tail = ","
+					}
+					return []byte(`"` + name + `":` + repl + tail)
+				})
+				return bytes.ReplaceAll(bytes.ReplaceAll(out, []byte(",}"), []byte("}")), []byte(",]"), []byte("]"))
+			}
+		}
+		for _, qi := range []int{0, 2} {
+			c := &mc.Ctx{}
+			full := [4]int{0, 0, 0, 0} // two levels, both matching, both UpToDate
+			ti, _ := build(c, qi, &full)
+			nStatus := 2
+			if len(ti.TdxModuleIdentities) == 2 {
+				nStatus = 2 + len(ti.TdxModuleIdentities[0].TcbLevels) + len(ti.TdxModuleIdentities[1].TcbLevels)
+			}
+			type ed struct {
+				name string
+				n    int
+			}
+			eds := []ed{{"fmspc", 1}, {"pceId", 1}, {"mrsigner", 3}, {"attributes", 3}, {"attributesMask", 3}, {"id", 3}, {"version", 1}, {"nextUpdate", 1}, {"issueDate", 1}, {"tcbType", 1}, {"pcesvn", 2}, {"isvsvn", 3}, {"tcbDate", 4}, {"tcbStatus", nStatus}}
+			for _, e := range eds {
+				for nth := 0; nth < e.n; nth++ {
+					for _, v := range []struct{ n, repl string }{{"absent", ""}, {"null", "null"}, {"empty", `""`}} {
+						id := fmt.Sprintf("member/q%d/%s[%d]=%s", qi, e.name, nth, v.n)
+						if !r.Want(id) {
+							continue
+						}
+						rawEdit = drop(e.name, nth, v.repl)
+						eval(id, qi, ti, true)
+						rawEdit = nil
+					}
+				}
+			}
+		}
+	}
 	bound := 2
 	if r.Thorough() {
 		bound = 3
